@@ -179,7 +179,13 @@ def parse_sig(ev):
 
 
 def pull_sig(ev):
-    return (ev.outcome, ev.get("r", "-"), ev.get("msg", "-"), ev.get("err", "-"))
+    # The text of a failure is not part of the result sequence: libdw hands
+    # back whatever its error cell holds when the failing call set nothing, so
+    # the message of one and the same failure varies with what happened before
+    # (found by the thorough tier on the unchanged tree: "invalid DWARF" fresh,
+    # "invalid file" after the stale-error knob).  That a pull fails, and
+    # which, is compared; what the message says is not.
+    return (ev.outcome, ev.get("r", "-"), "-" if ev.outcome == "fail" else ev.get("msg", "-"), ev.get("err", "-"))
 
 
 def show_sig(sig):
